@@ -12,8 +12,8 @@ def posOps : List String :=
   ["gen", "genvec", "semibulk", "mvalidate", "legalunchecked", "make", "makelike", "attackers", "check", "queryafter",
    "outcome", "outcomeafter", "fenformat", "uciinto", "saninto", "sanof"]
 
-/-- (model answer, oracle verdict) for one case line and the implementation's answer -/
-def answer (line impl : String) : String × String :=
+/-- (model answer, oracle verdict) for one plain case line and the implementation's answer -/
+def answerCore (line impl : String) : String × String :=
   let toks := (line.splitOn " ").filter (· ≠ "")
   match toks with
   | [] => ("~", "-")
@@ -86,5 +86,39 @@ def answer (line impl : String) : String × String :=
           | _, _, _ => ("invalid", "-"))
        | _ => ("badop", "-"))
     | _, _ => ("badop", "-")
+
+/-- (model answer, oracle verdict) for one case line, object prefixes included.
+
+`restored MV <case>`: the implementation answers the case on the board OBJECT it gets by making MV on the validated
+board and taking it back. In the model that object is the original board (`C04.undo_restores_semilegal`: un-making
+restores the whole board, derived sets and hash included, for every well-formed semilegal move, legal or not;
+`C04.undo_null` for the null move), so the model
+answer and the oracle verdict are those of the inner case.
+
+`reached MV <op> RAW <args>`: the implementation answers on the board object `Board::make_move` returned. In the
+model a legal move leads from a valid board to a valid board whose derived state is the one validation would build
+from its raw contents (`valid_make`, `Valid.shape.cons`), so the inner case is answered for the raw board after the move;
+`n/a` when the move is not well-formed or not legal (oracle: it must then not be a legal move of the rules). -/
+def answer (line impl : String) : String × String :=
+  let toks := (line.splitOn " ").filter (· ≠ "")
+  match toks with
+  | "restored" :: _ :: rest => answerCore (String.intercalate " " rest) impl
+  | "reached" :: mv :: op :: args =>
+    (match parseRaw args, parseMove mv with
+     | some (raw, rest), some m =>
+       (match implBoard? raw with
+        | none => answerCore (String.intercalate " " (op :: args)) impl
+        | some b =>
+          let na : String × String :=
+            ("n/a", match specPos? raw, absMove m with
+                    | some p, some sm =>
+                      if (Spec.legalMoves p).contains sm then bad "a legal move of the rules was refused" else expect "n/a" impl
+                    | _, _ => expect "n/a" impl)
+          if !m.isWellFormed then na else
+          match Impl.makeMoveChecked b m with
+          | .ok b' => answerCore (String.intercalate " " (op :: fmtRaw b'.r :: rest)) impl
+          | _ => na)
+     | _, _ => ("badop", "-"))
+  | _ => answerCore line impl
 
 end Owl.Drv
